@@ -198,7 +198,8 @@ CHECKS = {
         technique="Coq proof (refinement by induction over operation "
                   "sequences) + vm_compute correspondence + source-to-Coq "
                   "translation of the registration methods of Application "
-                  "with proved equality to the model"),
+                  "with proved equality to the model"
+                  " + source-to-Coq translation of the registry views and decorator forms with proved equality to the model"),
     "C06": dict(
         text="Theorems over the model of Response/FileObjResponse/"
              "GeneratorResponse: for EVERY history of write()/.data calls the "
@@ -432,7 +433,8 @@ CHECKS = {
              "no <script> contexts (translator rejects them).",
         technique="source-to-Coq translation (PageIR) + Coq proof "
                   "(noninterference by induction) + vm_compute "
-                  "correspondence"),
+                  "correspondence"
+                  " + source-to-Coq translation of HTML_ESCAPE_TABLE and html_escape with proved equality to the model's escape function"),
     "C16": dict(
         text="Theorems over the model of get_token/check_token for every "
              "secret, client, T>0 and instants t0,t1>=0 (verify <-> aligned "
